@@ -1,0 +1,15 @@
+//go:build verif
+
+package autofile
+
+// VerifAfterGroupWrite, when set, is called at the end of every (*Group).Write, after the group
+// mutex has been released.  The verification harness (/verif, family `wal`, property C15) uses it to
+// run the head-size check of the group's ticker between the group writes of ONE WAL message -- the
+// ticker is a goroutine of its own and nothing but the mutex orders it with the writer.
+var VerifAfterGroupWrite func(g *Group)
+
+func verifAfterWrite(g *Group) {
+	if f := VerifAfterGroupWrite; f != nil {
+		f(g)
+	}
+}
